@@ -105,7 +105,7 @@ type ctl struct {
 	running   int // callbacks currently executing
 	popSteps  []int
 	parkTime  time.Time
-	graceTill time.Time // lateness is not judged before this instant (see resume)
+	slack     time.Duration // total time the loop was parked between computing its wait and arming the timer
 	closeRet  *atomic.Bool
 }
 
@@ -236,11 +236,11 @@ func runProc(t *testing.T, c procCase) (out outcome, err error) {
 				}
 			}
 			k.mu.Lock()
-			inGrace := now.Before(k.graceTill)
+			slack := k.slack
 			k.mu.Unlock()
-			if !suspended() && !inGrace {
+			if !suspended() {
 				for key, m := range live {
-					if !m.it.due.After(now) {
+					if !m.it.due.After(now) && now.Sub(m.it.due) >= slack {
 						errs.Failf("after %s: item %d (key k%d) scheduled %v ago is still waiting although the clock reached its time and nothing is blocked (stranded or late)", step, m.it.id, key, now.Sub(m.it.due))
 						return false
 					}
@@ -339,9 +339,10 @@ func runProc(t *testing.T, c procCase) (out outcome, err error) {
 					k.parked = false
 					if k.parkedAt == "loop.beforeTimer" {
 						// The loop arms its timer with the wait it computed before it was parked, so the head
-						// runs late by exactly the length of the pause (a real context switch lasts
-						// microseconds; here the clock may have jumped while it was parked). Not a defect.
-						k.graceTill = time.Now().Add(time.Since(k.parkTime))
+						// item runs late by exactly the length of the pause (a real context switch lasts
+						// microseconds; here the clock may have moved while it was parked). Not a defect:
+						// lateness up to the total time spent parked there is tolerated from now on.
+						k.slack += time.Since(k.parkTime)
 					}
 				}
 				k.armed = ""
